@@ -112,7 +112,13 @@ Delta(n, a, b) ==
 
 Top(s) == s[Len(s)]
 Pop(s) == SubSeq(s, 1, Len(s) - 1)
-St(h, hs, ret, exc) == [h |-> h, hs |-> hs, ret |-> ret, exc |-> exc]
+St(h, hs, ret, exc, cap) == [h |-> h, hs |-> hs, ret |-> ret, exc |-> exc, cap |-> {x \in cap : x < h}]
+(* cap: the local slots that a closure created on this path has captured and that are still open.  Lowering the operand
+   stack below such a slot is only legal by CloseUpvalue (or by the VM itself: return, unwinding, JumpFinally close them) -
+   "every scope exit emits one Pop/CloseUpvalue per local" (C04), on every path including break / continue *)
+CapturedBy(pc, d) ==       \* the local slots named by the operand pairs of a Closure instruction
+    LET k == IF d.a < Len(F.ckind) /\ F.ckind[d.a + 1] = "fn" THEN F.cupv[d.a + 1] ELSE 0 IN
+    {Byte(pc + 3 + 2 * i + 1) : i \in {j \in 0..(k - 1) : Byte(pc + 3 + 2 * j) = 1}}
 
 (* unwind_stack: a catch block starts with the exception object on the operand stack (it is the
    catch variable); a finally-only handler runs at the try statement's own height and the
@@ -147,11 +153,11 @@ Step(pc, st) ==
         hs == st.hs
         nxt == d.nxt
         excEdge == IF n \in Raises /\ hs # <<>>
-                   THEN LET r == Top(hs) IN {<<r[1], St(Landing(r), Pop(hs), st.ret, r[1] = r[2])>>}
+                   THEN LET r == Top(hs) IN {<<r[1], St(Landing(r), Pop(hs), st.ret, r[1] = r[2], {x \in st.cap : x < r[3]})>>}
                    ELSE {}
         JumpTo(t) ==       \* a plain jump; handlers whose region is left unpopped are a problem, then dropped
             LET k == LeftBehind(hs, t) IN
-            [succ |-> {<<t, St(h, SubSeq(hs, 1, Len(hs) - k), st.ret, st.exc)>>},
+            [succ |-> {<<t, St(h, SubSeq(hs, 1, Len(hs) - k), st.ret, st.exc, st.cap)>>},
              probs |-> IF k > 0 THEN {Problem("jump-leaves-try-body-with-its-handler-installed", pc, <<n, k>>)} ELSE {}]
         base == OperandProblems(pc, d, st)
         r ==
@@ -164,22 +170,27 @@ Step(pc, st) ==
             [] n \in {"JumpIfFalse", "JumpIfStopIter"} ->
                  LET j == JumpTo(nxt + d.a) IN [succ |-> j.succ \cup {<<nxt, st>>}, probs |-> j.probs]
             [] n = "PushExcHandler" ->
-                 [succ |-> {<<nxt, St(h, Append(hs, Rec(nxt + d.a, nxt + d.a + d.b, h, nxt)), st.ret, st.exc)>>}, probs |-> {}]
+                 [succ |-> {<<nxt, St(h, Append(hs, Rec(nxt + d.a, nxt + d.a + d.b, h, nxt)), st.ret, st.exc, st.cap)>>}, probs |-> {}]
             [] n = "PopExcHandler" ->
                  IF hs = <<>> THEN [succ |-> {<<nxt, st>>}, probs |-> {Problem("pop-handler-on-empty-handler-stack", pc, 0)}]
-                 ELSE [succ |-> {<<nxt, St(h, Pop(hs), st.ret, st.exc)>>}, probs |-> {}]
+                 ELSE [succ |-> {<<nxt, St(h, Pop(hs), st.ret, st.exc, st.cap)>>}, probs |-> {}]
             [] n = "JumpFinally" ->
                  IF hs = <<>> THEN [succ |-> {}, probs |-> {Problem("jumpfinally-on-empty-handler-stack", pc, 0)}]
-                 ELSE LET q == Top(hs) IN [succ |-> {<<q[2], St(q[3], Pop(hs), nxt, st.exc)>>}, probs |-> {}]
+                 ELSE LET q == Top(hs) IN [succ |-> {<<q[2], St(q[3], Pop(hs), nxt, st.exc, {x \in st.cap : x < q[3]})>>}, probs |-> {}]
             [] n = "EndFinally" ->
-                 [succ |-> (IF st.exc /\ hs # <<>> THEN LET q == Top(hs) IN {<<q[1], St(Landing(q), Pop(hs), st.ret, q[1] = q[2])>>} ELSE {})
-                       \cup (IF ~st.exc /\ st.ret # NoRet THEN {<<st.ret, St(h + 1, hs, NoRet, FALSE)>>} ELSE {})
-                       \cup (IF ~st.exc /\ st.ret = NoRet THEN {<<nxt, St(h, hs, NoRet, FALSE)>>} ELSE {}),
+                 [succ |-> (IF st.exc /\ hs # <<>> THEN LET q == Top(hs) IN {<<q[1], St(Landing(q), Pop(hs), st.ret, q[1] = q[2], {x \in st.cap : x < q[3]})>>} ELSE {})
+                       \cup (IF ~st.exc /\ st.ret # NoRet THEN {<<st.ret, St(h + 1, hs, NoRet, FALSE, st.cap)>>} ELSE {})
+                       \cup (IF ~st.exc /\ st.ret = NoRet THEN {<<nxt, St(h, hs, NoRet, FALSE, st.cap)>>} ELSE {}),
                   probs |-> {}]
             [] OTHER ->
-                 LET h2 == h + Delta(n, d.a, d.b) IN
+                 LET h2 == h + Delta(n, d.a, d.b)
+                     cap2 == IF n = "Closure" THEN st.cap \cup CapturedBy(pc, d) ELSE st.cap
+                     lost == IF n = "CloseUpvalue" THEN {} ELSE {x \in cap2 : x >= h2}
+                 IN
                  IF h2 < 1 THEN [succ |-> {}, probs |-> {Problem("operand-stack-underflow", pc, <<n, h>>)}]
-                 ELSE [succ |-> {<<nxt, St(h2, hs, st.ret, st.exc)>>}, probs |-> {}]
+                 ELSE [succ |-> {<<nxt, St(h2, hs, st.ret, st.exc, cap2)>>},
+                       probs |-> (IF lost # {} THEN {Problem("captured-variable-discarded-without-being-closed", pc, <<n, lost>>)} ELSE {})
+                            \cup (IF n = "Closure" /\ \E x \in CapturedBy(pc, d) : x >= h THEN {Problem("closure-captures-a-slot-above-the-stack-height", pc, CapturedBy(pc, d))} ELSE {})]
     IN [succ |-> r.succ \cup (IF n = "EndFinally" THEN {} ELSE excEdge), probs |-> base \cup r.probs]
 
 -----------------------------------------------------------------------------
@@ -187,13 +198,13 @@ EmptyMap(n) == [p \in 0..(n - 1) |-> {}]
 
 StartFn(i) ==
     IF i > Len(Fns) THEN /\ amap' = <<>> /\ work' = {} /\ problems' = {} /\ nstates' = 0
-    ELSE /\ amap' = [EmptyMap(Len(Fns[i].code)) EXCEPT ![0] = {St(Fns[i].arity, <<>>, NoRet, FALSE)}]
+    ELSE /\ amap' = [EmptyMap(Len(Fns[i].code)) EXCEPT ![0] = {St(Fns[i].arity, <<>>, NoRet, FALSE, {})}]
          /\ work' = {0}
          /\ problems' = {}
          /\ nstates' = 1
 
 Init == /\ fi = 1
-        /\ amap = IF Len(Fns) = 0 THEN <<>> ELSE [EmptyMap(Len(Fns[1].code)) EXCEPT ![0] = {St(Fns[1].arity, <<>>, NoRet, FALSE)}]
+        /\ amap = IF Len(Fns) = 0 THEN <<>> ELSE [EmptyMap(Len(Fns[1].code)) EXCEPT ![0] = {St(Fns[1].arity, <<>>, NoRet, FALSE, {})}]
         /\ work = IF Len(Fns) = 0 THEN {} ELSE {0}
         /\ problems = {}
         /\ nstates = IF Len(Fns) = 0 THEN 0 ELSE 1
